@@ -914,4 +914,945 @@ theorem assignSimplexPart_eq (tgt src : Obj ℝ) :
 theorem ok_slice (src : Obj ℝ) (h : OK src) : OK { src with vValues := none } :=
   ⟨⟨h.method, h.dim_pos, h.dim_lt, h.len, h.inOpen, h.cache⟩, h.probs, by intro v hv; cases hv⟩
 
+/-! ## Part B — the heap -/
+
+section HeapLemmas
+variable {β : Type}
+
+theorem derefs_length (cells : List (Param β)) (as : List Nat) (ps : List (Param β))
+    (h : derefs cells as = some ps) : ps.length = as.length := by
+  induction as generalizing ps with
+  | nil => simp [derefs] at h; subst h; rfl
+  | cons a as ih =>
+    simp only [derefs] at h
+    cases h1 : cells[a]? with
+    | none => simp [h1] at h
+    | some p =>
+      cases h2 : derefs cells as with
+      | none => simp [h1, h2] at h
+      | some qs =>
+        simp only [h1, h2, Option.some.injEq] at h
+        subst h
+        simp [ih qs h2]
+
+/-- all addresses inside the heap: the list can be dereferenced -/
+theorem derefs_isSome (cells : List (Param β)) (as : List Nat) (h : ∀ a ∈ as, a < cells.length) :
+    ∃ ps, derefs cells as = some ps := by
+  induction as with
+  | nil => exact ⟨[], rfl⟩
+  | cons a as ih =>
+    obtain ⟨qs, hq⟩ := ih (fun x hx => h x (by simp [hx]))
+    have ha : a < cells.length := h a (by simp)
+    exact ⟨cells[a] :: qs, by simp [derefs, List.getElem?_eq_getElem ha, hq]⟩
+
+theorem writeCells_length (cells : List (Param β)) (as : List Nat) (ps : List (Param β)) :
+    (writeCells cells as ps).length = cells.length := by
+  induction as generalizing cells ps with
+  | nil => cases ps <;> rfl
+  | cons a as ih =>
+    cases ps with
+    | nil => rfl
+    | cons p ps => simp [writeCells, ih]
+
+/-- a cell outside the written addresses keeps its content -/
+theorem writeCells_getElem?_of_notMem (cells : List (Param β)) (as : List Nat) (ps : List (Param β)) (b : Nat)
+    (hb : b ∉ as) : (writeCells cells as ps)[b]? = cells[b]? := by
+  induction as generalizing cells ps with
+  | nil => cases ps <;> rfl
+  | cons a as ih =>
+    cases ps with
+    | nil => rfl
+    | cons p ps =>
+      simp only [writeCells]
+      rw [ih (cells.set a p) ps (fun hm => hb (by simp [hm]))]
+      have : a ≠ b := fun e => hb (by simp [e])
+      simp [this]
+
+theorem derefs_congr (cells cells' : List (Param β)) (as : List Nat)
+    (h : ∀ a ∈ as, cells'[a]? = cells[a]?) : derefs cells' as = derefs cells as := by
+  induction as with
+  | nil => rfl
+  | cons a as ih =>
+    simp only [derefs, h a (by simp), ih (fun x hx => h x (by simp [hx]))]
+
+/-- writing through one list of pointers does not touch what a disjoint list points to -/
+theorem derefs_writeCells_other (cells : List (Param β)) (as : List Nat) (ps : List (Param β)) (bs : List Nat)
+    (hd : ∀ b ∈ bs, b ∉ as) : derefs (writeCells cells as ps) bs = derefs cells bs :=
+  derefs_congr _ _ bs (fun b hb => writeCells_getElem?_of_notMem cells as ps b (hd b hb))
+
+/-- reading back what was written through a duplicate-free list of valid pointers -/
+theorem derefs_writeCells_same (cells : List (Param β)) (as : List Nat) (ps : List (Param β))
+    (hl : ps.length = as.length) (hn : as.Nodup) (hb : ∀ a ∈ as, a < cells.length) :
+    derefs (writeCells cells as ps) as = some ps := by
+  induction as generalizing cells ps with
+  | nil => cases ps with
+    | nil => rfl
+    | cons _ _ => simp at hl
+  | cons a as ih =>
+    cases ps with
+    | nil => simp at hl
+    | cons p ps =>
+      have hna : a ∉ as := (List.nodup_cons.mp hn).1
+      have hn' : as.Nodup := (List.nodup_cons.mp hn).2
+      simp only [writeCells, derefs]
+      have h1 : (writeCells (cells.set a p) as ps)[a]? = some p := by
+        rw [writeCells_getElem?_of_notMem _ as ps a hna]
+        have : a < cells.length := hb a (by simp)
+        simp [this]
+      rw [h1, ih (cells.set a p) ps (by simpa using hl) hn' (fun x hx => by
+        simp only [List.length_set]; exact hb x (by simp [hx]))]
+
+/-- writing back what was read changes nothing -/
+theorem writeCells_self (cells : List (Param β)) (as : List Nat) (ps : List (Param β))
+    (h : derefs cells as = some ps) : writeCells cells as ps = cells := by
+  induction as generalizing ps with
+  | nil => simp [derefs] at h; subst h; rfl
+  | cons a as ih =>
+    simp only [derefs] at h
+    cases h1 : cells[a]? with
+    | none => simp [h1] at h
+    | some p =>
+      cases h2 : derefs cells as with
+      | none => simp [h1, h2] at h
+      | some qs =>
+        simp only [h1, h2, Option.some.injEq] at h
+        subst h
+        simp only [writeCells]
+        have : cells.set a p = cells := by
+          obtain ⟨hlt, he⟩ := List.getElem?_eq_some_iff.mp h1
+          rw [← he]; exact List.set_getElem_self hlt
+        rw [this]; exact ih qs h2
+
+theorem derefs_append (cells extra : List (Param β)) (as : List Nat) (hb : ∀ a ∈ as, a < cells.length) :
+    derefs (cells ++ extra) as = derefs cells as :=
+  derefs_congr _ _ as (fun a ha => List.getElem?_append_left (hb a ha))
+
+/-- the freshly allocated cells -/
+theorem derefs_fresh (cells ps : List (Param β)) :
+    derefs (cells ++ ps) ((List.range ps.length).map (cells.length + ·)) = some ps := by
+  induction ps generalizing cells with
+  | nil => rfl
+  | cons p ps ih =>
+    have hr : (List.range (p :: ps).length).map (cells.length + ·) =
+        cells.length :: (List.range ps.length).map ((cells ++ [p]).length + ·) := by
+      simp only [List.length_cons, List.range_succ_eq_map, List.map_cons, List.map_map, Nat.add_zero,
+        List.length_append, List.length_nil]
+      congr 1
+      apply List.map_congr_left
+      intro x _
+      simp only [Function.comp]
+      omega
+    rw [hr]
+    simp only [derefs]
+    have h0 : (cells ++ p :: ps)[cells.length]? = some p := by simp
+    have h1 : cells ++ p :: ps = (cells ++ [p]) ++ ps := by simp
+    rw [h0, h1, ih (cells ++ [p])]
+
+end HeapLemmas
+
+/-- the object in register `k`, parameters dereferenced -/
+def Heap.get (h : Heap ℝ) (k : Nat) : Option (Obj ℝ) :=
+  match h.view k with
+  | .ok (_, o) => some o
+  | .error _ => none
+
+/-- separation: the parameter lists of the objects point into the heap, without repetition, and
+the lists of two objects are disjoint (no `Parameter` object is shared) -/
+structure Sep (h : Heap ℝ) : Prop where
+  inb : ∀ k ho, h.obj? k = some ho → ∀ a ∈ ho.paddr, a < h.cells.length
+  nodup : ∀ k ho, h.obj? k = some ho → ho.paddr.Nodup
+  disj : ∀ k k' ho ho', k ≠ k' → h.obj? k = some ho → h.obj? k' = some ho' → ∀ a ∈ ho.paddr, a ∉ ho'.paddr
+
+theorem obj?_lt (h : Heap ℝ) (k : Nat) (ho : HObj ℝ) (e : h.obj? k = some ho) : k < h.regs.length := by
+  unfold Heap.obj? at e
+  by_contra hlt
+  have : h.regs[k]? = none := List.getElem?_eq_none (by omega)
+  rw [this] at e; cases e
+
+theorem obj?_set_same (cells : List (Param ℝ)) (regs : List (Option (HObj ℝ))) (k : Nat) (x : HObj ℝ)
+    (hk : k < regs.length) : Heap.obj? ⟨cells, regs.set k (some x)⟩ k = some x := by
+  simp [Heap.obj?, hk]
+
+theorem obj?_set_other (cells cells' : List (Param ℝ)) (regs : List (Option (HObj ℝ))) (k k' : Nat)
+    (x : Option (HObj ℝ)) (hne : k' ≠ k) : Heap.obj? ⟨cells', regs.set k x⟩ k' = Heap.obj? ⟨cells, regs⟩ k' := by
+  simp [Heap.obj?, Ne.symm hne]
+
+theorem get_of (h : Heap ℝ) (k : Nat) (ho : HObj ℝ) (ps : List (Param ℝ)) (e : h.obj? k = some ho)
+    (d : derefs h.cells ho.paddr = some ps) :
+    h.view k = .ok (ho, ⟨ps, ho.dim, ho.method, ho.vProb, ho.valpha, ho.vValues⟩) ∧
+    h.get k = some ⟨ps, ho.dim, ho.method, ho.vProb, ho.valpha, ho.vValues⟩ := by
+  have : h.view k = .ok (ho, ⟨ps, ho.dim, ho.method, ho.vProb, ho.valpha, ho.vValues⟩) := by
+    simp [Heap.view, e, Heap.load, d]
+  exact ⟨this, by simp [Heap.get, this]⟩
+
+theorem get_none (h : Heap ℝ) (k : Nat) (e : h.obj? k = none) : h.get k = none ∧ h.view k = .error .empty := by
+  simp [Heap.get, Heap.view, e]
+
+/-- under separation every register that holds an object can be viewed -/
+theorem view_of_sep (h : Heap ℝ) (hs : Sep h) (k : Nat) (ho : HObj ℝ) (e : h.obj? k = some ho) :
+    ∃ ps, derefs h.cells ho.paddr = some ps ∧ ps.length = ho.paddr.length := by
+  obtain ⟨ps, hp⟩ := derefs_isSome h.cells ho.paddr (hs.inb k ho e)
+  exact ⟨ps, hp, derefs_length _ _ _ hp⟩
+
+/-- the view determines the heap object -/
+theorem view_ok (h : Heap ℝ) (k : Nat) (ho : HObj ℝ) (o : Obj ℝ) (e : h.view k = .ok (ho, o)) :
+    h.obj? k = some ho ∧ derefs h.cells ho.paddr = some o.params ∧ h.get k = some o ∧
+    o.dim = ho.dim ∧ o.method = ho.method ∧ o.vProb = ho.vProb ∧ o.valpha = ho.valpha ∧ o.vValues = ho.vValues := by
+  unfold Heap.view at e
+  cases h1 : h.obj? k with
+  | none => simp [h1] at e
+  | some ho' =>
+    simp only [h1] at e
+    unfold Heap.load at e
+    cases h2 : derefs h.cells ho'.paddr with
+    | none => simp [h2] at e
+    | some ps =>
+      simp only [h2, Except.ok.injEq, Prod.mk.injEq] at e
+      obtain ⟨rfl, rfl⟩ := e
+      exact ⟨rfl, h2, (get_of h k ho' ps h1 h2).2, rfl, rfl, rfl, rfl, rfl⟩
+
+theorem get_eq_some (h : Heap ℝ) (k : Nat) (o : Obj ℝ) (e : h.get k = some o) :
+    ∃ ho, h.view k = .ok (ho, o) := by
+  unfold Heap.get at e
+  cases hv : h.view k with
+  | error _ => simp [hv] at e
+  | ok p => obtain ⟨ho, o'⟩ := p; simp only [hv, Option.some.injEq] at e; subst e; exact ⟨ho, rfl⟩
+
+/-- a member function has run on the object of register `k`: separation is kept, the register
+holds the new state, every other register reads as before -/
+theorem store_spec (h : Heap ℝ) (hs : Sep h) (k : Nat) (ho : HObj ℝ) (hk : h.obj? k = some ho)
+    (o' : Obj ℝ) (hl : o'.params.length = ho.paddr.length) :
+    Sep (h.store k ho o') ∧ (h.store k ho o').get k = some o' ∧
+    (∀ k', k' ≠ k → (h.store k ho o').get k' = h.get k') ∧
+    (h.store k ho o').regs.length = h.regs.length := by
+  have hklt := obj?_lt h k ho hk
+  have hsame : (h.store k ho o').obj? k = some ⟨ho.paddr, o'.dim, o'.method, o'.vProb, o'.valpha, o'.vValues⟩ :=
+    obj?_set_same _ _ k _ hklt
+  have hother : ∀ k', k' ≠ k → (h.store k ho o').obj? k' = h.obj? k' := fun k' hne =>
+    obj?_set_other h.cells _ h.regs k k' _ hne
+  have hlen : (h.store k ho o').cells.length = h.cells.length := writeCells_length _ _ _
+  have hobj : ∀ k' ho', (h.store k ho o').obj? k' = some ho' → ∃ ho'', h.obj? k' = some ho'' ∧ ho''.paddr = ho'.paddr := by
+    intro k' ho' e
+    by_cases hne : k' = k
+    · subst hne; rw [hsame] at e; cases e; exact ⟨ho, hk, rfl⟩
+    · rw [hother k' hne] at e; exact ⟨ho', e, rfl⟩
+  refine ⟨⟨?_, ?_, ?_⟩, ?_, ?_, by simp [Heap.store]⟩
+  · intro k' ho' e a ha
+    obtain ⟨ho'', e', hp⟩ := hobj k' ho' e
+    rw [hlen]; exact hs.inb k' ho'' e' a (hp ▸ ha)
+  · intro k' ho' e
+    obtain ⟨ho'', e', hp⟩ := hobj k' ho' e
+    rw [← hp]; exact hs.nodup k' ho'' e'
+  · intro k1 k2 ho1 ho2 hne e1 e2 a ha
+    obtain ⟨h1, e1', hp1⟩ := hobj k1 ho1 e1
+    obtain ⟨h2, e2', hp2⟩ := hobj k2 ho2 e2
+    rw [← hp2]; exact hs.disj k1 k2 h1 h2 hne e1' e2' a (hp1 ▸ ha)
+  · have d := derefs_writeCells_same h.cells ho.paddr o'.params hl (hs.nodup k ho hk) (hs.inb k ho hk)
+    exact (get_of (h.store k ho o') k _ o'.params hsame d).2
+  · intro k' hne
+    cases e : h.obj? k' with
+    | none =>
+      rw [(get_none h k' e).1]
+      exact (get_none _ k' (by rw [hother k' hne]; exact e)).1
+    | some ho' =>
+      obtain ⟨ps, hp, _⟩ := view_of_sep h hs k' ho' e
+      have d : derefs (h.store k ho o').cells ho'.paddr = some ps := by
+        show derefs (writeCells h.cells ho.paddr o'.params) ho'.paddr = some ps
+        rw [derefs_writeCells_other _ _ _ _ (fun b hb => hs.disj k' k ho' ho hne e hk b hb)]
+        exact hp
+      rw [(get_of h k' ho' ps e hp).2]
+      exact (get_of _ k' ho' ps (by rw [hother k' hne]; exact e) d).2
+
+/-- a new object (all its parameters newly allocated) is put into register `j` -/
+theorem alloc_spec (h : Heap ℝ) (hs : Sep h) (j : Nat) (o : Obj ℝ) :
+    Sep (h.allocObj j o) ∧ (j < h.regs.length → (h.allocObj j o).get j = some o) ∧
+    (∀ k', k' ≠ j → (h.allocObj j o).get k' = h.get k') ∧
+    (h.allocObj j o).regs.length = h.regs.length := by
+  have hother : ∀ k', k' ≠ j → (h.allocObj j o).obj? k' = h.obj? k' := fun k' hne =>
+    obj?_set_other h.cells _ h.regs j k' _ hne
+  have hcells : (h.allocObj j o).cells = h.cells ++ o.params := rfl
+  have hobj : ∀ k' ho', (h.allocObj j o).obj? k' = some ho' →
+      (k' ≠ j ∧ h.obj? k' = some ho') ∨
+      (k' = j ∧ ho'.paddr = (List.range o.params.length).map (h.cells.length + ·)) := by
+    intro k' ho' e
+    by_cases hne : k' = j
+    · subst hne
+      have hlt : k' < h.regs.length := by
+        have := obj?_lt _ k' ho' e
+        simpa [Heap.allocObj] using this
+      have := obj?_set_same (h.cells ++ o.params) h.regs k'
+        ⟨(List.range o.params.length).map (h.cells.length + ·), o.dim, o.method, o.vProb, o.valpha, o.vValues⟩ hlt
+      have e' : (h.allocObj k' o).obj? k' = some
+        ⟨(List.range o.params.length).map (h.cells.length + ·), o.dim, o.method, o.vProb, o.valpha, o.vValues⟩ := this
+      rw [e'] at e; cases e; exact Or.inr ⟨rfl, rfl⟩
+    · rw [hother k' hne] at e; exact Or.inl ⟨hne, e⟩
+  have hfresh : ∀ a ∈ (List.range o.params.length).map (h.cells.length + ·),
+      h.cells.length ≤ a ∧ a < h.cells.length + o.params.length := by
+    intro a ha
+    obtain ⟨i, hi, rfl⟩ := List.mem_map.mp ha
+    have := List.mem_range.mp hi
+    omega
+  refine ⟨⟨?_, ?_, ?_⟩, ?_, ?_, by simp [Heap.allocObj]⟩
+  · intro k' ho' e a ha
+    rw [hcells, List.length_append]
+    rcases hobj k' ho' e with ⟨_, e'⟩ | ⟨_, hp⟩
+    · have := hs.inb k' ho' e' a ha; omega
+    · exact (hfresh a (hp ▸ ha)).2
+  · intro k' ho' e
+    rcases hobj k' ho' e with ⟨_, e'⟩ | ⟨_, hp⟩
+    · exact hs.nodup k' ho' e'
+    · rw [hp]
+      exact List.Nodup.map (fun x y hxy => by omega) List.nodup_range
+  · intro k1 k2 ho1 ho2 hne e1 e2 a ha hb
+    rcases hobj k1 ho1 e1 with ⟨n1, e1'⟩ | ⟨n1, hp1⟩ <;> rcases hobj k2 ho2 e2 with ⟨n2, e2'⟩ | ⟨n2, hp2⟩
+    · exact hs.disj k1 k2 ho1 ho2 hne e1' e2' a ha hb
+    · have h1 := hs.inb k1 ho1 e1' a ha
+      have h2 := (hfresh a (hp2 ▸ hb)).1
+      omega
+    · have h1 := hs.inb k2 ho2 e2' a hb
+      have h2 := (hfresh a (hp1 ▸ ha)).1
+      omega
+    · exact hne (n1.trans n2.symm)
+  · intro hlt
+    have e' : (h.allocObj j o).obj? j = some
+        ⟨(List.range o.params.length).map (h.cells.length + ·), o.dim, o.method, o.vProb, o.valpha, o.vValues⟩ :=
+      obj?_set_same (h.cells ++ o.params) h.regs j _ hlt
+    have d : derefs (h.allocObj j o).cells ((List.range o.params.length).map (h.cells.length + ·)) = some o.params :=
+      derefs_fresh h.cells o.params
+    exact (get_of (h.allocObj j o) j _ o.params e' d).2
+  · intro k' hne
+    cases e : h.obj? k' with
+    | none =>
+      rw [(get_none h k' e).1]
+      exact (get_none _ k' (by rw [hother k' hne]; exact e)).1
+    | some ho' =>
+      obtain ⟨ps, hp, _⟩ := view_of_sep h hs k' ho' e
+      have d : derefs (h.allocObj j o).cells ho'.paddr = some ps := by
+        rw [hcells, derefs_append _ _ _ (hs.inb k' ho' e)]; exact hp
+      rw [(get_of h k' ho' ps e hp).2]
+      exact (get_of _ k' ho' ps (by rw [hother k' hne]; exact e) d).2
+
+/-! ### member functions keep the number of parameters, the constraints, the class (unconditionally) -/
+
+theorem matchReq_same (o o' : Obj ℝ) (req : Nat → Option ℝ) (e : o.matchReq req = .ok o') : SameShape o o' := by
+  unfold Obj.matchReq at e
+  split at e
+  · split at e
+    · cases e; exact (sameShape_write o req).trans (fire_sameShape _)
+    · cases e; exact SameShape.refl _
+  · cases e
+
+theorem setReq_same (o o' : Obj ℝ) (req : Nat → Option ℝ) (e : o.setReq req = .ok o') : SameShape o o' := by
+  unfold Obj.setReq at e
+  split at e
+  · cases e; exact (sameShape_write o req).trans (fire_sameShape _)
+  · cases e
+
+theorem setOne_same (o o' : Obj ℝ) (i : Nat) (v : ℝ) (e : o.setOne i v = .ok o') : SameShape o o' := by
+  unfold Obj.setOne at e
+  cases hp : o.param? i with
+  | none => simp [hp] at e
+  | some p =>
+    obtain ⟨_, hlt, _, hget⟩ := param?_some o i p hp
+    simp only [hp] at e
+    split at e
+    · split at e
+      · cases e
+        have hss : SameShape o { o with params := o.params.set (i - 1) { p with value := v } } := by
+          refine ⟨rfl, rfl, rfl, ?_⟩
+          simp only [List.map_set]
+          apply List.ext_getElem? ; intro n
+          by_cases hn : n = i - 1
+          · subst hn
+            have hge : o.params[i - 1] = p := by
+              have := List.getElem?_eq_getElem hlt
+              rw [hget] at this; exact (Option.some.inj this).symm
+            simp [hlt, hge]
+          · simp [Ne.symm hn]
+        exact hss.trans (fire_sameShape _)
+      · cases e
+    · cases e; exact fire_sameShape o
+
+theorem cacheWrite_same (o : Obj ℝ) (p : List ℝ) : SameShape o (o.cacheWrite p) := by
+  obtain ⟨c1, c2, c3, _, c5, _⟩ := cacheWrite_fields o p
+  exact ⟨c2, c3, by rw [c5], by rw [c1]⟩
+
+theorem setFrequenciesBase_same (o : Obj ℝ) (p : List ℝ) : SameShape o (o.setFrequenciesBase p).1 := by
+  by_cases hd : o.dim = 0
+  · unfold Obj.setFrequenciesBase; simp only [hd, if_true]; exact SameShape.refl _
+  · rcases setFrequenciesBase_char o p hd with e | e | ⟨_, ⟨o2, hm, e⟩ | ⟨err, _, e⟩⟩
+    · rw [e]; exact SameShape.refl _
+    · rw [e]; exact SameShape.refl _
+    · rw [e]; exact (cacheWrite_same o _).trans (matchReq_same _ _ _ hm)
+    · rw [e]; exact cacheWrite_same o _
+
+theorem oSetFrequencies_same (o : Obj ℝ) (hv : o.vValues.isSome = true) (v : List ℝ) :
+    SameShape o (o.oSetFrequencies v).1 := by
+  unfold Obj.oSetFrequencies
+  split
+  · exact SameShape.refl _
+  · split
+    · exact SameShape.refl _
+    · have hb := setFrequenciesBase_same o (orderedToProbs v 1)
+      split
+      · rename_i o' heq
+        rw [heq] at hb
+        exact ⟨hb.dim, hb.method, by simp [hv], hb.incl⟩
+      · rename_i o' e heq
+        rw [heq] at hb
+        exact hb
+
+theorem setFrequencies_same (o : Obj ℝ) (p : List ℝ) : SameShape o (o.setFrequencies p).1 := by
+  unfold Obj.setFrequencies
+  cases hv : o.vValues with
+  | none => exact setFrequenciesBase_same o p
+  | some w => exact oSetFrequencies_same o (by simp [hv]) p
+
+/-! ### heap operations -/
+
+theorem update_of_err (h : Heap ℝ) (k : Nat) (f : Obj ℝ → Obj ℝ × Option Err) (e : HErr)
+    (hv : h.view k = .error e) : h.update k f = (h, some e) := by
+  unfold Heap.update; rw [hv]
+
+theorem update_of_ok (h : Heap ℝ) (k : Nat) (f : Obj ℝ → Obj ℝ × Option Err) (ho : HObj ℝ) (o : Obj ℝ)
+    (hv : h.view k = .ok (ho, o)) : h.update k f = (h.store k ho (f o).1, (f o).2.map HErr.exc) := by
+  unfold Heap.update; rw [hv]
+  simp only
+  cases hf : f o with
+  | mk o' err => cases err <;> rfl
+
+theorem updateE_of_err (h : Heap ℝ) (k : Nat) (f : Obj ℝ → Except Err (Obj ℝ)) (e : HErr)
+    (hv : h.view k = .error e) : h.updateE k f = (h, some e) := by
+  unfold Heap.updateE; rw [hv]
+
+theorem updateE_of_ok (h : Heap ℝ) (k : Nat) (f : Obj ℝ → Except Err (Obj ℝ)) (ho : HObj ℝ) (o o' : Obj ℝ)
+    (hv : h.view k = .ok (ho, o)) (hf : f o = .ok o') : h.updateE k f = (h.store k ho o', none) := by
+  unfold Heap.updateE; rw [hv]; simp only [hf]
+
+theorem updateE_of_rej (h : Heap ℝ) (k : Nat) (f : Obj ℝ → Except Err (Obj ℝ)) (ho : HObj ℝ) (o : Obj ℝ) (e : Err)
+    (hv : h.view k = .ok (ho, o)) (hf : f o = .error e) : h.updateE k f = (h, some (.exc e)) := by
+  unfold Heap.updateE; rw [hv]; simp only [hf]
+
+/-- running a member function on the object of register `k` -/
+theorem update_spec (h : Heap ℝ) (hs : Sep h) (k : Nat) (f : Obj ℝ → Obj ℝ × Option Err)
+    (hlen : ∀ o, (f o).1.params.length = o.params.length) :
+    Sep (h.update k f).1 ∧ (∀ r, r ≠ k → (h.update k f).1.get r = h.get r) ∧
+    (h.update k f).1.regs.length = h.regs.length ∧
+    (∀ o, h.get k = some o → (h.update k f).1.get k = some (f o).1 ∧
+      (h.update k f).2 = (f o).2.map HErr.exc) ∧
+    (h.get k = none → (h.update k f).1 = h) := by
+  cases hv : h.view k with
+  | error e =>
+    have hg : h.get k = none := by simp [Heap.get, hv]
+    rw [update_of_err h k f e hv]
+    exact ⟨hs, fun _ _ => rfl, rfl, fun o ho => (by rw [hg] at ho; cases ho), fun _ => rfl⟩
+  | ok p =>
+    obtain ⟨ho, o⟩ := p
+    obtain ⟨hk, hd, hg, _⟩ := view_ok h k ho o hv
+    have hl : (f o).1.params.length = ho.paddr.length := by
+      rw [hlen o]; exact derefs_length _ _ _ hd
+    obtain ⟨s1, s2, s3, s4⟩ := store_spec h hs k ho hk (f o).1 hl
+    rw [update_of_ok h k f ho o hv]
+    refine ⟨s1, s3, s4, ?_, fun hn => by rw [hg] at hn; cases hn⟩
+    intro o1 ho1
+    rw [hg] at ho1; cases ho1
+    exact ⟨s2, rfl⟩
+
+theorem updateE_spec (h : Heap ℝ) (hs : Sep h) (k : Nat) (f : Obj ℝ → Except Err (Obj ℝ))
+    (hlen : ∀ o o', f o = .ok o' → o'.params.length = o.params.length) :
+    Sep (h.updateE k f).1 ∧ (∀ r, r ≠ k → (h.updateE k f).1.get r = h.get r) ∧
+    (h.updateE k f).1.regs.length = h.regs.length ∧
+    (∀ o, h.get k = some o →
+      (∀ o', f o = .ok o' → (h.updateE k f).1.get k = some o' ∧ (h.updateE k f).2 = none) ∧
+      (∀ e, f o = .error e → (h.updateE k f).1 = h ∧ (h.updateE k f).2 = some (.exc e))) ∧
+    (h.get k = none → (h.updateE k f).1 = h) := by
+  cases hv : h.view k with
+  | error e =>
+    have hg : h.get k = none := by simp [Heap.get, hv]
+    rw [updateE_of_err h k f e hv]
+    exact ⟨hs, fun _ _ => rfl, rfl, fun o ho => (by rw [hg] at ho; cases ho), fun _ => rfl⟩
+  | ok p =>
+    obtain ⟨ho, o⟩ := p
+    obtain ⟨hk, hd, hg, _⟩ := view_ok h k ho o hv
+    cases hf : f o with
+    | error e =>
+      rw [updateE_of_rej h k f ho o e hv hf]
+      refine ⟨hs, fun _ _ => rfl, rfl, ?_, fun _ => rfl⟩
+      intro o1 ho1
+      rw [hg] at ho1; cases ho1
+      rw [hf]
+      exact ⟨fun o' e' => (by cases e'), fun e1 e' => (by cases e'; exact ⟨rfl, rfl⟩)⟩
+    | ok o' =>
+      have hl : o'.params.length = ho.paddr.length := by
+        rw [hlen o o' hf]; exact derefs_length _ _ _ hd
+      obtain ⟨s1, s2, s3, s4⟩ := store_spec h hs k ho hk o' hl
+      rw [updateE_of_ok h k f ho o o' hv hf]
+      refine ⟨s1, s3, s4, ?_, fun hn => by rw [hg] at hn; cases hn⟩
+      intro o1 ho1
+      rw [hg] at ho1; cases ho1
+      rw [hf]
+      exact ⟨fun o'' e' => (by cases e'; exact ⟨s2, rfl⟩), fun e1 e' => (by cases e')⟩
+
+/-- the register an operation writes -/
+def HOp.target : HOp ℝ → Nat
+  | .newVec j _ _ _ _ => j
+  | .newDim j _ _ _ _ => j
+  | .setFreq k _ => k
+  | .setPar k _ => k
+  | .matchSome k _ => k
+  | .setSome k _ => k
+  | .setOne k _ _ => k
+  | .fire k => k
+  | .copy _ j => j
+  | .sliceCopy _ j => j
+  | .assign _ j => j
+  | .sliceAssign _ j => j
+  | .baseAssign _ j => j
+
+/-- an operation either leaves the heap as it is or puts a wholly new object into its target -/
+def AllocLike (h h' : Heap ℝ) (j : Nat) : Prop := h' = h ∨ ∃ o, h' = h.allocObj j o
+
+theorem allocLike_spec (h h' : Heap ℝ) (hs : Sep h) (j : Nat) (ha : AllocLike h h' j) :
+    Sep h' ∧ (∀ r, r ≠ j → h'.get r = h.get r) ∧ h'.regs.length = h.regs.length := by
+  rcases ha with rfl | ⟨o, rfl⟩
+  · exact ⟨hs, fun _ _ => rfl, rfl⟩
+  · obtain ⟨a1, _, a3, a4⟩ := alloc_spec h hs j o
+    exact ⟨a1, a3, a4⟩
+
+theorem create_allocLike (h : Heap ℝ) (j : Nat) (r : Except Err (Obj ℝ)) : AllocLike h (h.create j r).1 j := by
+  unfold Heap.create
+  cases r with
+  | ok o => exact Or.inr ⟨o, rfl⟩
+  | error e => exact Or.inl rfl
+
+theorem copy_allocLike (h : Heap ℝ) (k j : Nat) : AllocLike h (stepH h (.copy k j)) j := by
+  simp only [stepH, applyH]
+  cases h.view k with
+  | error e => exact Or.inl rfl
+  | ok p => exact Or.inr ⟨_, rfl⟩
+
+theorem sliceCopy_allocLike (h : Heap ℝ) (k j : Nat) : AllocLike h (stepH h (.sliceCopy k j)) j := by
+  simp only [stepH, applyH]
+  cases h.view k with
+  | error e => exact Or.inl rfl
+  | ok p => exact Or.inr ⟨_, rfl⟩
+
+theorem assign_allocLike (h : Heap ℝ) (k j : Nat) : AllocLike h (stepH h (.assign k j)) j := by
+  simp only [stepH, applyH]
+  cases h.view k with
+  | error e => exact Or.inl rfl
+  | ok p =>
+    cases h.view j with
+    | error e => exact Or.inl rfl
+    | ok q =>
+      simp only
+      split
+      · exact Or.inl rfl
+      · split
+        · exact Or.inl rfl
+        · exact Or.inr ⟨_, rfl⟩
+
+theorem sliceAssign_allocLike (h : Heap ℝ) (k j : Nat) : AllocLike h (stepH h (.sliceAssign k j)) j := by
+  simp only [stepH, applyH]
+  cases h.view k with
+  | error e => exact Or.inl rfl
+  | ok p =>
+    cases h.view j with
+    | error e => exact Or.inl rfl
+    | ok q =>
+      simp only
+      split
+      · exact Or.inl rfl
+      · exact Or.inr ⟨_, rfl⟩
+
+theorem baseAssign_allocLike (h : Heap ℝ) (k j : Nat) : AllocLike h (stepH h (.baseAssign k j)) j := by
+  simp only [stepH, applyH]
+  cases h.view k with
+  | error e => exact Or.inl rfl
+  | ok p =>
+    cases h.view j with
+    | error e => exact Or.inl rfl
+    | ok q =>
+      simp only
+      split
+      · exact Or.inl rfl
+      · exact Or.inr ⟨_, rfl⟩
+
+theorem fire_len (o o' : Obj ℝ) (e : (Except.ok o.fire : Except Err (Obj ℝ)) = .ok o') :
+    o'.params.length = o.params.length := by
+  cases e; rw [(fire_fields o).1]
+
+/-- FRAME: an operation keeps the separation of the heap and does not change what any register
+other than its target holds -/
+theorem step_sep_frame (h : Heap ℝ) (hs : Sep h) (op : HOp ℝ) :
+    Sep (stepH h op) ∧ (∀ r, r ≠ op.target → (stepH h op).get r = h.get r) ∧
+    (stepH h op).regs.length = h.regs.length := by
+  cases op with
+  | newVec j ord m a p =>
+    cases ord <;> exact allocLike_spec h _ hs j (create_allocLike h j _)
+  | newDim j ord n m a =>
+    cases ord <;> exact allocLike_spec h _ hs j (create_allocLike h j _)
+  | setFreq k p =>
+    obtain ⟨u1, u2, u3, _⟩ := update_spec h hs k (fun o => o.setFrequencies p)
+      (fun o => (setFrequencies_same o p).len)
+    exact ⟨u1, u2, u3⟩
+  | setPar k θ =>
+    obtain ⟨u1, u2, u3, _⟩ := updateE_spec h hs k (fun o => o.matchReq (reqOfList θ))
+      (fun o o' e => (matchReq_same o o' _ e).len)
+    exact ⟨u1, u2, u3⟩
+  | matchSome k pl =>
+    obtain ⟨u1, u2, u3, _⟩ := updateE_spec h hs k (fun o => o.matchReq (reqOfPairs pl))
+      (fun o o' e => (matchReq_same o o' _ e).len)
+    exact ⟨u1, u2, u3⟩
+  | setSome k pl =>
+    obtain ⟨u1, u2, u3, _⟩ := updateE_spec h hs k (fun o => o.setReq (reqOfPairs pl))
+      (fun o o' e => (setReq_same o o' _ e).len)
+    exact ⟨u1, u2, u3⟩
+  | setOne k i v =>
+    obtain ⟨u1, u2, u3, _⟩ := updateE_spec h hs k (fun o => o.setOne i v)
+      (fun o o' e => (setOne_same o o' i v e).len)
+    exact ⟨u1, u2, u3⟩
+  | fire k =>
+    obtain ⟨u1, u2, u3, _⟩ := updateE_spec h hs k (fun o => .ok o.fire) fire_len
+    exact ⟨u1, u2, u3⟩
+  | copy k j => exact allocLike_spec h _ hs j (copy_allocLike h k j)
+  | sliceCopy k j => exact allocLike_spec h _ hs j (sliceCopy_allocLike h k j)
+  | assign k j => exact allocLike_spec h _ hs j (assign_allocLike h k j)
+  | sliceAssign k j => exact allocLike_spec h _ hs j (sliceAssign_allocLike h k j)
+  | baseAssign k j => exact allocLike_spec h _ hs j (baseAssign_allocLike h k j)
+
+theorem sep_empty (n : Nat) : Sep (Heap.empty n : Heap ℝ) := by
+  have : ∀ k, (Heap.empty n : Heap ℝ).obj? k = none := by
+    intro k
+    simp only [Heap.obj?, Heap.empty]
+    by_cases hk : k < n
+    · simp [hk]
+    · simp [hk]
+  exact ⟨fun k ho e => (by rw [this k] at e; cases e), fun k ho e => (by rw [this k] at e; cases e),
+    fun k _ ho _ _ e => (by rw [this k] at e; cases e)⟩
+
+theorem run_sep (h : Heap ℝ) (hs : Sep h) (ops : List (HOp ℝ)) : Sep (runH h ops) := by
+  induction ops generalizing h with
+  | nil => exact hs
+  | cons op rest ih => exact ih _ (step_sep_frame h hs op).1
+
+/-! ### what an operation puts into its target -/
+
+theorem get_lt (h : Heap ℝ) (k : Nat) (o : Obj ℝ) (e : h.get k = some o) : k < h.regs.length := by
+  obtain ⟨ho, hv⟩ := get_eq_some h k o e
+  exact obj?_lt h k ho (view_ok h k ho o hv).1
+
+theorem alloc_get_target (h : Heap ℝ) (hs : Sep h) (j : Nat) (o o' : Obj ℝ)
+    (e : (h.allocObj j o).get j = some o') : o' = o := by
+  obtain ⟨_, a2, _, a4⟩ := alloc_spec h hs j o
+  have hlt : j < h.regs.length := by rw [← a4]; exact get_lt _ j o' e
+  rw [a2 hlt] at e; cases e; rfl
+
+theorem create_effect (h : Heap ℝ) (j : Nat) (r : Except Err (Obj ℝ)) :
+    (∃ o, r = .ok o ∧ (h.create j r).1 = h.allocObj j o ∧ (h.create j r).2 = none) ∨
+    (∃ e, r = .error e ∧ (h.create j r).1 = h ∧ (h.create j r).2 = some (.exc e)) := by
+  unfold Heap.create
+  cases r with
+  | ok o => exact Or.inl ⟨o, rfl, rfl, rfl⟩
+  | error e => exact Or.inr ⟨e, rfl, rfl, rfl⟩
+
+theorem copy_effect (h : Heap ℝ) (k j : Nat) :
+    (h.get k = none ∧ stepH h (.copy k j) = h) ∨
+    (∃ src, h.get k = some src ∧ stepH h (.copy k j) = h.allocObj j src.copyCtor) := by
+  simp only [stepH, applyH]
+  cases hv : h.view k with
+  | error e => exact Or.inl ⟨by simp [Heap.get, hv], rfl⟩
+  | ok p => obtain ⟨ho, src⟩ := p; exact Or.inr ⟨src, (view_ok h k ho src hv).2.2.1, rfl⟩
+
+theorem sliceCopy_effect (h : Heap ℝ) (k j : Nat) :
+    (h.get k = none ∧ stepH h (.sliceCopy k j) = h) ∨
+    (∃ src, h.get k = some src ∧ stepH h (.sliceCopy k j) = h.allocObj j src.copySimplexPart) := by
+  simp only [stepH, applyH]
+  cases hv : h.view k with
+  | error e => exact Or.inl ⟨by simp [Heap.get, hv], rfl⟩
+  | ok p => obtain ⟨ho, src⟩ := p; exact Or.inr ⟨src, (view_ok h k ho src hv).2.2.1, rfl⟩
+
+theorem assign_effect (h : Heap ℝ) (k j : Nat) :
+    stepH h (.assign k j) = h ∨
+    (∃ src tgt, h.get k = some src ∧ h.get j = some tgt ∧ src.vValues.isSome = tgt.vValues.isSome ∧ k ≠ j ∧
+      stepH h (.assign k j) = h.allocObj j (tgt.assign src)) := by
+  simp only [stepH, applyH]
+  cases hv : h.view k with
+  | error e => exact Or.inl rfl
+  | ok p =>
+    obtain ⟨hk, src⟩ := p
+    cases hw : h.view j with
+    | error e => exact Or.inl rfl
+    | ok q =>
+      obtain ⟨hj, tgt⟩ := q
+      simp only
+      split
+      · exact Or.inl rfl
+      · rename_i hc
+        split
+        · exact Or.inl rfl
+        · rename_i hne
+          exact Or.inr ⟨src, tgt, (view_ok h k hk src hv).2.2.1, (view_ok h j hj tgt hw).2.2.1,
+            by simpa using hc, hne, rfl⟩
+
+theorem sliceAssign_effect (h : Heap ℝ) (k j : Nat) :
+    stepH h (.sliceAssign k j) = h ∨
+    (∃ src tgt, h.get k = some src ∧ h.get j = some tgt ∧ src.vValues.isSome = true ∧ tgt.vValues = none ∧
+      stepH h (.sliceAssign k j) = h.allocObj j (tgt.assignSimplexPart src)) := by
+  simp only [stepH, applyH]
+  cases hv : h.view k with
+  | error e => exact Or.inl rfl
+  | ok p =>
+    obtain ⟨hk, src⟩ := p
+    cases hw : h.view j with
+    | error e => exact Or.inl rfl
+    | ok q =>
+      obtain ⟨hj, tgt⟩ := q
+      simp only
+      split
+      · exact Or.inl rfl
+      · rename_i hc
+        simp only [Bool.or_eq_true, Bool.not_eq_true', not_or, Bool.not_eq_false, Bool.not_eq_true] at hc
+        refine Or.inr ⟨src, tgt, (view_ok h k hk src hv).2.2.1, (view_ok h j hj tgt hw).2.2.1, hc.1, ?_, rfl⟩
+        cases ht : tgt.vValues with
+        | none => rfl
+        | some w => rw [ht] at hc; simp at hc
+
+theorem baseAssign_effect (h : Heap ℝ) (k j : Nat) :
+    stepH h (.baseAssign k j) = h ∨
+    (∃ src tgt, h.get k = some src ∧ h.get j = some tgt ∧ src.vValues = none ∧ tgt.vValues.isSome = true ∧
+      src.dim = tgt.dim ∧ stepH h (.baseAssign k j) = h.allocObj j (tgt.assignSimplexPart src)) := by
+  simp only [stepH, applyH]
+  cases hv : h.view k with
+  | error e => exact Or.inl rfl
+  | ok p =>
+    obtain ⟨hk, src⟩ := p
+    cases hw : h.view j with
+    | error e => exact Or.inl rfl
+    | ok q =>
+      obtain ⟨hj, tgt⟩ := q
+      simp only
+      split
+      · exact Or.inl rfl
+      · rename_i hc
+        simp only [Bool.or_eq_true, Bool.not_eq_true', decide_eq_true_eq, not_or, Bool.not_eq_true,
+          Bool.not_eq_false, Decidable.not_not] at hc
+        refine Or.inr ⟨src, tgt, (view_ok h k hk src hv).2.2.1, (view_ok h j hj tgt hw).2.2.1, ?_, hc.1.2, hc.2, rfl⟩
+        cases hs' : src.vValues with
+        | none => rfl
+        | some w => have := hc.1.1; rw [hs'] at this; simp at this
+
+/-! ### the invariant of the heap over histories -/
+
+/-- separation + every object of the heap satisfies the object invariant -/
+def HInv (h : Heap ℝ) : Prop := Sep h ∧ ∀ r o, h.get r = some o → OK o
+
+/-- the calls the history theorems quantify over.  Constructors are called with arguments inside
+the property's quantifier.  Setters: arguments inside the property's quantifier (positive
+probability vectors / strictly decreasing ordered values summing to one, parameters in the open
+interval), OR — on an object built with the strict constraint — ANY argument (`setFrequencies` of
+an `OrderedSimplex` excepted).  Copies: any.  The assignment through a base-class reference is
+excluded (it leaves `vValues_` behind: `baseAssign_breaks_values`). -/
+def Adm (h : Heap ℝ) : HOp ℝ → Prop
+  | .newVec _ false m _ p => ValidMethod m ∧ ValidProbs p
+  | .newVec _ true m _ p => ValidMethod m ∧ ValidOrdered p
+  | .newDim _ _ n m _ => ValidMethod m ∧ 0 < n ∧ n < 2 ^ 31
+  | .setFreq k p => ∀ o, h.get k = some o → SetFreqArg o p
+  | .setPar k θ => ∀ o, h.get k = some o → (ReqOpen (reqOfList θ) 1 o.params.length ∨ Strict o)
+  | .matchSome k pl => ∀ o, h.get k = some o → (ReqOpen (reqOfPairs pl) 1 o.params.length ∨ Strict o)
+  | .setSome k pl => ∀ o, h.get k = some o → (ReqOpen (reqOfPairs pl) 1 o.params.length ∨ Strict o)
+  | .setOne k _ v => ∀ o, h.get k = some o → ((0 < v ∧ v < 1) ∨ Strict o)
+  | .fire _ => True
+  | .copy _ _ => True
+  | .sliceCopy _ _ => True
+  | .assign _ _ => True
+  | .sliceAssign _ _ => True
+  | .baseAssign _ _ => False
+
+/-- a history all of whose calls are admissible in the state they are made in -/
+def AdmRun : Heap ℝ → List (HOp ℝ) → Prop
+  | _, [] => True
+  | h, op :: rest => Adm h op ∧ AdmRun (stepH h op) rest
+
+theorem inv_of_allocLike_target (h : Heap ℝ) (hi : HInv h) (j : Nat) (o : Obj ℝ) (ho : OK o) :
+    ∀ o', (h.allocObj j o).get j = some o' → OK o' := by
+  intro o' e
+  rw [alloc_get_target h hi.1 j o o' e]; exact ho
+
+theorem step_inv (h : Heap ℝ) (hi : HInv h) (op : HOp ℝ) (ha : Adm h op) : HInv (stepH h op) := by
+  obtain ⟨f1, f2, _⟩ := step_sep_frame h hi.1 op
+  refine ⟨f1, ?_⟩
+  intro r o e
+  by_cases hr : r = op.target
+  swap
+  · rw [f2 r hr] at e; exact hi.2 r o e
+  subst hr
+  cases op with
+  | newVec j ord m a p =>
+    cases ord with
+    | false =>
+      obtain ⟨o1, e1, b1, _⟩ := construct_ok p m a ha.1 ha.2
+      rcases create_effect h j (construct p m a) with ⟨o2, e2, e3, _⟩ | ⟨err, e2, _⟩
+      · rw [e1] at e2; cases e2
+        have e' : (h.allocObj j o1).get j = some o := by
+          have : stepH h (.newVec j false m a p) = h.allocObj j o1 := e3
+          rw [← this]; exact e
+        exact inv_of_allocLike_target h hi j o1 b1.ok o e'
+      · rw [e1] at e2; cases e2
+    | true =>
+      obtain ⟨o1, e1, b1, _⟩ := oConstruct_ok p m a ha.1 ha.2
+      rcases create_effect h j (oConstruct p m a) with ⟨o2, e2, e3, _⟩ | ⟨err, e2, _⟩
+      · rw [e1] at e2; cases e2
+        have e' : (h.allocObj j o1).get j = some o := by
+          have : stepH h (.newVec j true m a p) = h.allocObj j o1 := e3
+          rw [← this]; exact e
+        exact inv_of_allocLike_target h hi j o1 b1.ok o e'
+      · rw [e1] at e2; cases e2
+  | newDim j ord n m a =>
+    cases ord with
+    | false =>
+      obtain ⟨o1, e1, b1, _⟩ := constructDim_ok n m a ha.1 ha.2.1 ha.2.2
+      rcases create_effect h j (constructDim n m a) with ⟨o2, e2, e3, _⟩ | ⟨err, e2, _⟩
+      · rw [e1] at e2; cases e2
+        have e' : (h.allocObj j o1).get j = some o := by
+          have : stepH h (.newDim j false n m a) = h.allocObj j o1 := e3
+          rw [← this]; exact e
+        exact inv_of_allocLike_target h hi j o1 b1.ok o e'
+      · rw [e1] at e2; cases e2
+    | true =>
+      obtain ⟨o1, e1, b1, _⟩ := oConstructDim_ok n m a ha.1 ha.2.1 ha.2.2
+      rcases create_effect h j (oConstructDim n m a) with ⟨o2, e2, e3, _⟩ | ⟨err, e2, _⟩
+      · rw [e1] at e2; cases e2
+        have e' : (h.allocObj j o1).get j = some o := by
+          have : stepH h (.newDim j true n m a) = h.allocObj j o1 := e3
+          rw [← this]; exact e
+        exact inv_of_allocLike_target h hi j o1 b1.ok o e'
+      · rw [e1] at e2; cases e2
+  | setFreq k p =>
+    obtain ⟨_, _, _, u4, u5⟩ := update_spec h hi.1 k (fun o => o.setFrequencies p)
+      (fun o => (setFrequencies_same o p).len)
+    cases hg : h.get k with
+    | none =>
+      have : stepH h (.setFreq k p) = h := u5 hg
+      rw [this] at e; exact hi.2 _ o e
+    | some o0 =>
+      have h1 : (stepH h (.setFreq k p)).get k = some (o0.setFrequencies p).1 := (u4 o0 hg).1
+      have e' : (stepH h (.setFreq k p)).get k = some o := e
+      rw [h1] at e'; cases e'
+      exact (setFrequencies_pres o0 (hi.2 k o0 hg) p (ha o0 hg)).1
+  | setPar k θ =>
+    obtain ⟨_, _, _, u4, u5⟩ := updateE_spec h hi.1 k (fun o => o.matchReq (reqOfList θ))
+      (fun o o' e => (matchReq_same o o' _ e).len)
+    cases hg : h.get k with
+    | none =>
+      have : stepH h (.setPar k θ) = h := u5 hg
+      rw [this] at e; exact hi.2 _ o e
+    | some o0 =>
+      cases hf : o0.matchReq (reqOfList θ) with
+      | error err =>
+        have : stepH h (.setPar k θ) = h := ((u4 o0 hg).2 err hf).1
+        rw [this] at e; exact hi.2 _ o e
+      | ok o1 =>
+        have h1 : (stepH h (.setPar k θ)).get k = some o1 := ((u4 o0 hg).1 o1 hf).1
+        have e' : (stepH h (.setPar k θ)).get k = some o := e
+        rw [h1] at e'; rw [← Option.some.inj e']
+        exact (matchReq_ok o0 (hi.2 k o0 hg) _ (ha o0 hg) o1 hf).1
+  | matchSome k pl =>
+    obtain ⟨_, _, _, u4, u5⟩ := updateE_spec h hi.1 k (fun o => o.matchReq (reqOfPairs pl))
+      (fun o o' e => (matchReq_same o o' _ e).len)
+    cases hg : h.get k with
+    | none =>
+      have : stepH h (.matchSome k pl) = h := u5 hg
+      rw [this] at e; exact hi.2 _ o e
+    | some o0 =>
+      cases hf : o0.matchReq (reqOfPairs pl) with
+      | error err =>
+        have : stepH h (.matchSome k pl) = h := ((u4 o0 hg).2 err hf).1
+        rw [this] at e; exact hi.2 _ o e
+      | ok o1 =>
+        have h1 : (stepH h (.matchSome k pl)).get k = some o1 := ((u4 o0 hg).1 o1 hf).1
+        have e' : (stepH h (.matchSome k pl)).get k = some o := e
+        rw [h1] at e'; rw [← Option.some.inj e']
+        exact (matchReq_ok o0 (hi.2 k o0 hg) _ (ha o0 hg) o1 hf).1
+  | setSome k pl =>
+    obtain ⟨_, _, _, u4, u5⟩ := updateE_spec h hi.1 k (fun o => o.setReq (reqOfPairs pl))
+      (fun o o' e => (setReq_same o o' _ e).len)
+    cases hg : h.get k with
+    | none =>
+      have : stepH h (.setSome k pl) = h := u5 hg
+      rw [this] at e; exact hi.2 _ o e
+    | some o0 =>
+      cases hf : o0.setReq (reqOfPairs pl) with
+      | error err =>
+        have : stepH h (.setSome k pl) = h := ((u4 o0 hg).2 err hf).1
+        rw [this] at e; exact hi.2 _ o e
+      | ok o1 =>
+        have h1 : (stepH h (.setSome k pl)).get k = some o1 := ((u4 o0 hg).1 o1 hf).1
+        have e' : (stepH h (.setSome k pl)).get k = some o := e
+        rw [h1] at e'; rw [← Option.some.inj e']
+        exact (setReq_ok o0 (hi.2 k o0 hg).toShape _ (ha o0 hg) o1 hf).1
+  | setOne k i v =>
+    obtain ⟨_, _, _, u4, u5⟩ := updateE_spec h hi.1 k (fun o => o.setOne i v)
+      (fun o o' e => (setOne_same o o' i v e).len)
+    cases hg : h.get k with
+    | none =>
+      have : stepH h (.setOne k i v) = h := u5 hg
+      rw [this] at e; exact hi.2 _ o e
+    | some o0 =>
+      cases hf : o0.setOne i v with
+      | error err =>
+        have : stepH h (.setOne k i v) = h := ((u4 o0 hg).2 err hf).1
+        rw [this] at e; exact hi.2 _ o e
+      | ok o1 =>
+        have h1 : (stepH h (.setOne k i v)).get k = some o1 := ((u4 o0 hg).1 o1 hf).1
+        have e' : (stepH h (.setOne k i v)).get k = some o := e
+        rw [h1] at e'; rw [← Option.some.inj e']
+        exact (setOne_ok o0 (hi.2 k o0 hg).toShape i v (ha o0 hg) o1 hf).1
+  | fire k =>
+    obtain ⟨_, _, _, u4, u5⟩ := updateE_spec h hi.1 k (fun o => .ok o.fire) fire_len
+    cases hg : h.get k with
+    | none =>
+      have : stepH h (.fire k) = h := u5 hg
+      rw [this] at e; exact hi.2 _ o e
+    | some o0 =>
+      have h1 : (stepH h (.fire k)).get k = some o0.fire := ((u4 o0 hg).1 o0.fire rfl).1
+      have e' : (stepH h (.fire k)).get k = some o := e
+      rw [h1] at e'; cases e'
+      exact (fire_ok o0 (hi.2 k o0 hg).toShape).1
+  | copy k j =>
+    rcases copy_effect h k j with ⟨_, e1⟩ | ⟨src, hsrc, e1⟩
+    · rw [e1] at e; exact hi.2 _ o e
+    · rw [e1] at e
+      exact inv_of_allocLike_target h hi j _ (by rw [copyCtor_eq]; exact hi.2 k src hsrc) o e
+  | sliceCopy k j =>
+    rcases sliceCopy_effect h k j with ⟨_, e1⟩ | ⟨src, hsrc, e1⟩
+    · rw [e1] at e; exact hi.2 _ o e
+    · rw [e1] at e
+      exact inv_of_allocLike_target h hi j _ (by rw [copySimplexPart_eq]; exact ok_slice src (hi.2 k src hsrc)) o e
+  | assign k j =>
+    rcases assign_effect h k j with e1 | ⟨src, tgt, hsrc, _, _, _, e1⟩
+    · rw [e1] at e; exact hi.2 _ o e
+    · rw [e1] at e
+      exact inv_of_allocLike_target h hi j _ (by rw [assign_eq]; exact hi.2 k src hsrc) o e
+  | sliceAssign k j =>
+    rcases sliceAssign_effect h k j with e1 | ⟨src, tgt, hsrc, _, _, htn, e1⟩
+    · rw [e1] at e; exact hi.2 _ o e
+    · rw [e1] at e
+      exact inv_of_allocLike_target h hi j _
+        (by rw [assignSimplexPart_eq, htn]; exact ok_slice src (hi.2 k src hsrc)) o e
+  | baseAssign k j => exact absurd ha id
+
+theorem inv_empty (n : Nat) : HInv (Heap.empty n : Heap ℝ) := by
+  refine ⟨sep_empty n, ?_⟩
+  intro r o e
+  have := get_lt _ r o e
+  have hk : r < n := by simpa [Heap.empty] using this
+  have : (Heap.empty n : Heap ℝ).obj? r = none := by simp [Heap.obj?, Heap.empty, hk]
+  rw [(get_none _ r this).1] at e; cases e
+
+theorem run_inv (h : Heap ℝ) (hi : HInv h) (ops : List (HOp ℝ)) (ha : AdmRun h ops) : HInv (runH h ops) := by
+  induction ops generalizing h with
+  | nil => exact hi
+  | cons op rest ih => exact ih _ (step_inv h hi op ha.1) ha.2
+
 end Bpp.SimplexObj
